@@ -265,9 +265,11 @@ def build(s, unit, R, tw, cls=None):
     elif k == "box":
         out["Box"] = C.Box(T, unit * np.array([s["a"], s["b"], s["c"]], dtype=float))
     elif k == "hull":
-        out["ConvexHullVertices"] = C.ConvexHullVertices(world_vertices(s, unit, R, tw))
-        V = np.ascontiguousarray(np.array(s["V"], dtype=float) * unit)
-        out["MeshGraph"] = C.MeshGraph(T, V, hull_triangles(s["V"]))
+        if cls in (None, "ConvexHullVertices"):
+            out["ConvexHullVertices"] = C.ConvexHullVertices(world_vertices(s, unit, R, tw))
+        if cls in (None, "MeshGraph"):
+            V = np.ascontiguousarray(np.array(s["V"], dtype=float) * unit)
+            out["MeshGraph"] = C.MeshGraph(T, V, hull_triangles(s["V"]))
     if cls is not None:
         return {cls: out[cls]}
     return out
@@ -277,7 +279,7 @@ def feature_size(s):
     k = s["kind"]
     if k == "hull":
         V = np.array(s["V"], dtype=float)
-        return float(np.max(np.linalg.norm(V - V.mean(0), axis=1)) * 2)
+        return max(1.0, float(np.max(np.linalg.norm(V - V.mean(0), axis=1)) * 2))
     vals = [v for kk, v in s.items() if kk not in ("kind", "name")]
     return float(max(vals))
 
